@@ -621,3 +621,9 @@ TECHNIQUE = {
     "C19": "unique-id histories: multiset/placement oracle, cross-helper and cross-schedule order comparison; fault injection on input and shard streams; shuttle",
     "C20": "route discovery from source + request matrix over in-process handler and real TLS/plain loopback listeners (pre-bound and self-bound) with a default-deny oracle",
 }
+
+# Thorough tiers whose seeded workloads finish in well under two minutes are repeated under derived seeds
+# (seed + 7919 * round); enumerations, `_x1` tests and the Miri build run once.
+ROUNDS = {"C03": 8, "C04": 8, "C05": 4, "C06": 8, "C09": 4, "C10": 6, "C11": 6, "C12": 6, "C19": 4, "C20": 8}
+for _pid, _r in ROUNDS.items():
+    PROPS[_pid]["rounds"] = {"thorough": _r}
